@@ -15,8 +15,9 @@ over the final table `t₂ ⊇ t₁`.
 
 `stmt_bytes_order_independent`: the re-run IS the fresh run — same outcome, same instruction, same argument list —
 for every mnemonic, every operand count, every stop position, provided the operand trees are `plain`
-(Lemmas/SimpRetry.lean: every sub-tree that the first attempt completes before it stops is a leaf or register-free
-arithmetic; this covers `imm`, `label ± expr`, `[Rn + expr]`, `[expr + Rn]`, `[Rn + sym + 4]`, register lists).
+(Lemmas/SimpRetry.lean: every sub-tree that the first attempt completes before it stops is a leaf, register-free
+arithmetic or `Rn + c`; this covers `imm`, `label ± expr`, `[Rn + expr]`, `[expr + Rn]`, `[Rn + sym + 4]`,
+`[Rn + 4 + sym]`, register lists).
 `du_value_order_independent`: the same for the operand of `.du8/.du16/.du32`.
 `placeholder_length`: the 0xBE placeholder has the length of the final encoding.
 
@@ -214,5 +215,12 @@ example :
       (frontEval [([121], some 1)]) true).2 = .deferred [120] ∧
     plainArg (.bin .add (.bin .mul (.bin .add (.const 2) (.const 3)) (.ident [121])) (.ident [120])) = true :=
   ⟨rfl, rfl⟩
+
+/-- the class `plain` contains the usual operand shapes: `[r1 + 4 + x]`, `[r1 + x + 4]`, `[x + r1]`, `x - 2 * y` -/
+example :
+    plainArg (.addr (.bin .add (.bin .add (.ident [114, 49]) (.const 4)) (.ident [120]))) = true ∧
+    plainArg (.addr (.bin .add (.bin .add (.ident [114, 49]) (.ident [120])) (.const 4))) = true ∧
+    plainArg (.addr (.bin .add (.ident [120]) (.ident [114, 49]))) = true ∧
+    plainArg (.bin .sub (.ident [120]) (.bin .mul (.const 2) (.ident [121]))) = true := ⟨rfl, rfl, rfl, rfl⟩
 
 end Trion.Asm
